@@ -19,11 +19,14 @@ CODES = {1: "a message of an acknowledged batch is missing or duplicated, or a f
 
 
 def gen(rng, tid, cache):
-    cfg = {"req": rng.choice([1, 2, 5, 1000]), "seg_size": rng.choice([400, 900, 3000, 1000000]), "cache": cache, "idx_cache": rng.random() < 0.5,
-           "fsync": rng.random() < 0.2, "nowait": rng.random() < 0.3}
+    nowait = rng.random() < 0.5
+    # under no-wait confirmation the interesting window is "a persisted batch is still on its way to the file while newer messages
+    # sit in the write buffer": small save thresholds keep both tiers populated
+    cfg = {"req": rng.choice([2, 3, 5, 8]) if nowait else rng.choice([1, 2, 5, 1000]), "seg_size": rng.choice([400, 900, 3000, 1000000]),
+           "cache": cache and not (nowait and rng.random() < 0.6), "idx_cache": rng.random() < 0.5, "fsync": rng.random() < 0.2, "nowait": nowait}
     stress = {"op": "stress", "producers": rng.randrange(2, 5), "consumers": rng.randrange(2, 4), "batches": rng.randrange(15, 40), "max_batch": rng.choice([1, 3, 6]),
               "polls": rng.randrange(40, 120), "count": rng.choice([1, 4, 10, 50]), "bg": [b for b in ("flush", "save", "evict") if rng.random() < 0.7],
-              "seed": rng.randrange(1, 1 << 30)}
+              "seed": rng.randrange(1, 1 << 30), "chase": rng.random() < 0.6}
     ops = [{"op": "create_stream", "name": "s1", "id": 1}, {"op": "create_topic", "stream": 1, "name": "t1", "parts": 1, "id": 1}, stress,
            {"op": "poll", "stream": 1, "topic": 1, "partition": 1, "kind": "offset", "value": 0, "count": 1000000}]
     return {"id": tid, "cfg": cfg, "ops": ops}
@@ -34,6 +37,8 @@ def run(out, tier, seed, gate):
     rng = util.Rng(seed * 120011 + 12)
     n = 16 if tier == "quick" else 200
     traces = [gen(rng, "C12-g%d" % i, i % 2 == 0) for i in range(n)]
+    for t in traces:
+        t["cache_group"] = t["cfg"]["cache"]
     impl = {}
     for cache in (True, False):
         group = [t for t in traces if t["cfg"]["cache"] == cache]
